@@ -189,6 +189,10 @@ def step (_ : Unit) (w : List String) : Unit × Out :=
     -- a double printed from caller-managed text (json_object_userdata_to_json_string, no delete function), deep-copied:
     -- the copy has its own text - rewriting or releasing the source's text afterwards does not change what the copy prints
     ((), { model := "copyud rc=0 equal=1 independent=1", spec := "copyud rc=0 equal=1 independent=1", cov := ["copyud"] })
+  | ["copyfmt", _bits, _fmt, _nested] =>
+    -- a double whose format string the node owns (json_object_double_to_json_string + userdata + delete function): the default
+    -- shallow copy either refuses it or produces a copy that shares nothing with the source
+    ((), { model := "copyfmt refused-or-disjoint", spec := "copyfmt refused-or-disjoint", cov := ["copyfmt"] })
   | ["copybad", t, mode] =>
     match JVal.parse t with
     | some v =>
